@@ -155,7 +155,9 @@ def profile_depths(yp, name, eargs, evars, mode):
     finally:
         sys.setprofile(None)
         sys.setrecursionlimit(old)
-        q.close()
+        close = getattr(q, 'close', None)       # harness housekeeping only: the query object need not be a generator
+        if close is not None:
+            close()
     return per, (mx[0] if finished else None)
 
 
